@@ -220,3 +220,58 @@ Fixpoint lookup_code (code : list (string * list gstmt)) (name : string) : list 
   | [] => []
   | (n, b) :: r => if (n =? name)%string then b else lookup_code r name
   end.
+
+(* ---- the calls of a body, in source order (pre-order over statements and expressions; the callee name
+   comes before its arguments' calls) ---- *)
+Fixpoint ecalls (fuel : nat) (e : gexpr) : list string :=
+  match fuel with
+  | O => []
+  | S k =>
+    match e with
+    | GCall f args => f :: flat_map (ecalls k) args
+    | GBin _ a b => ecalls k a ++ ecalls k b
+    | GUn _ a => ecalls k a
+    | GSel a _ => ecalls k a
+    | _ => []
+    end
+  end.
+
+Fixpoint calls (fuel : nat) (ss : list gstmt) : list string :=
+  match fuel with
+  | O => []
+  | S k =>
+    match ss with
+    | [] => []
+    | s :: rest =>
+      (match s with
+       | SAssign lhs _ rhs => flat_map (ecalls k) rhs ++ flat_map (ecalls k) lhs
+       | SIncDec x _ => ecalls k x
+       | SIf init c thn els => calls k init ++ ecalls k c ++ calls k thn ++ calls k els
+       | SFor init c post body =>
+         calls k init ++ (match c with Some e => ecalls k e | None => [] end) ++ calls k body ++ calls k post
+       | SRange _ _ x body => ecalls k x ++ calls k body
+       | SReturn rs => flat_map (ecalls k) rs
+       | SExpr e => ecalls k e
+       | SDefer e => ecalls k e
+       | SGo e => ecalls k e
+       | SBlock b => calls k b
+       | SVar _ (Some e) => ecalls k e
+       | SSwitch init tag cases => calls k init ++ ecalls k tag ++ flat_map (fun cs => calls k (snd cs)) cases
+       | _ => []
+       end) ++ calls k rest
+    end
+  end.
+
+(* position of the first occurrence *)
+Fixpoint index_of (x : string) (l : list string) : option nat :=
+  match l with
+  | [] => None
+  | y :: r => if (y =? x)%string then Some O else option_map S (index_of x r)
+  end.
+
+(* a occurs, b occurs, and the first a comes before the first b *)
+Definition before (a b : string) (l : list string) : bool :=
+  match index_of a l, index_of b l with
+  | Some i, Some j => Nat.ltb i j
+  | _, _ => false
+  end.
